@@ -29,7 +29,21 @@ def uf_rule(n: Node, k: int) -> Node:
     if kind == "P":
         p1, p2 = sorted([tuple(idx), kl])
         return _uf("A%s:%d" % (suffix, dim), p1 + p2, args)
+    if kind == "C":  # cofactor Cof_ij(F) = dJ/dF_ij ; its derivative is major-symmetric (d2J/dFdF)
+        p1, p2 = sorted([tuple(idx), kl])
+        return _uf("D%s:%d" % (suffix, dim), p1 + p2, args)
     raise NotImplementedError("derivative of uf %s" % name)
+
+
+def _register_eval(ctx, kinds, fn):
+    table = ctx.__dict__.setdefault("_uf_evals", {})
+    for k in kinds:
+        table[k] = fn
+
+    def dispatch(name, idx, argvals):
+        return table[name[0]](name, idx, argvals)
+
+    ctx.uf_eval = dispatch
 
 
 class AbstractHyperelastic:
@@ -47,7 +61,7 @@ class AbstractHyperelastic:
 
                 concrete = fem.NeoHooke(mu=1.3, bulk=4.1) if dim == 3 else None
             self.concrete = concrete
-            ctx.uf_eval = self._uf_eval
+            _register_eval(ctx, "WPA", self._uf_eval)
 
     # -- float interpretation of the atoms (translator validation)
     def _uf_eval(self, name, idx, argvals):
@@ -108,3 +122,61 @@ class AbstractHyperelastic:
                 p1, p2 = sorted([(i, j), (k, l)])
                 A[(i, j, k, l) + q] = Sym(_uf("A%s:%d" % (self.tag, d), p1 + p2, args))
         return [A]
+
+
+class AbstractAreaChange:
+    """uninterpreted cofactor Cof(F) = J F^-T with gradient dCof/dF major-symmetric (it is d2J/dFdF);
+    C03 proves that the real AreaChange.gradient is the derivative of AreaChange.function
+    (with and without a normal vector).  float mode: the real AreaChange."""
+
+    def __init__(self, ctx, dim=3):
+        self.ctx = ctx
+        self.dim = dim
+        if ctx.sym:
+            ctx.uf_rule = uf_rule
+        else:
+            from felupe.constitution import AreaChange
+
+            self.real = AreaChange()
+            _register_eval(ctx, "CD", self._uf_eval)
+
+    def _uf_eval(self, name, idx, argvals):
+        tag, _, dim = name.partition(":")
+        d = int(dim or 3)
+        F = np.array(argvals, dtype=float).reshape(d, d, 1, 1)
+        if tag[0] == "C":
+            return float(self.real.function([F])[0][idx[0], idx[1], 0, 0])
+        return float(self.real.gradient([F])[0][idx[0], idx[1], idx[2], idx[3], 0, 0])
+
+    def _args(self, F, q):
+        d = F.shape[0]
+        return [lift(F[(i, j) + q]) for i in range(d) for j in range(d)], d
+
+    def function(self, extract, N=None, parallel=None):
+        if not self.ctx.sym:
+            return self.real.function(extract, N) if N is not None else self.real.function(extract)
+        F = extract[0]
+        Fs = np.empty(F.shape, dtype=object)
+        for q in np.ndindex(*F.shape[2:]):
+            args, d = self._args(F, q)
+            for i in range(d):
+                for j in range(d):
+                    Fs[(i, j) + q] = Sym(_uf("C:%d" % d, (i, j), args))
+        if N is None:
+            return [Fs]
+        return [np.einsum("ij...,j...->i...", Fs, N)]
+
+    def gradient(self, extract, N=None, parallel=None):
+        if not self.ctx.sym:
+            return self.real.gradient(extract, N) if N is not None else self.real.gradient(extract)
+        F = extract[0]
+        d = F.shape[0]
+        D = np.empty((d, d, d, d) + F.shape[2:], dtype=object)
+        for q in np.ndindex(*F.shape[2:]):
+            args, d = self._args(F, q)
+            for i, j, k, l in np.ndindex(d, d, d, d):
+                p1, p2 = sorted([(i, j), (k, l)])
+                D[(i, j, k, l) + q] = Sym(_uf("D:%d" % d, p1 + p2, args))
+        if N is None:
+            return [D]
+        return [np.einsum("ijkl...,j...->ikl...", D, N)]
